@@ -3088,6 +3088,16 @@ def check_C08(ctx):
             if ok:
                 for i, g in enumerate(got):
                     good = g[0] == "call" and g[1] == "fn:" + kshift and g[2][0] is atom("s%d" % i, "u32")
+                    if not good:
+                        # the shifted card of slot i spelled out around a test for BLANK (`if c == BLANK { c } else
+                        # { c.shift_suit() }`): the same function, since the card shift maps BLANK to BLANK (C08.card-shift)
+                        si = atom("s%d" % i, "u32")
+                        shc = [x for x in walk(g) if x[0] == "call" and x[1] == "fn:" + kshift]
+                        if shc and all(x[2][0] is si for x in shc):
+                            g2 = substitute(g, lambda nd: atom("$sh", "u32") if (nd[0] == "call" and nd[1] == "fn:" + kshift) else None)
+                            cs_, why_ = value_use([g2], {"s%d" % i}, {"$sh"})
+                            if why_ is None and cs_ <= {0} and set(atoms_of(g2)) <= {"s%d" % i, "$sh"}:
+                                good = cval(evaluate(pdb, g2, {"s%d" % i: 0, "$sh": 0})) == 0 and all(cval(evaluate(pdb, g2, {"s%d" % i: w_, "$sh": 77})) == 77 for w_ in (1, 0x10008C29, 0xFFFFFFFF))
                     ok = ok and good
                     desc.append("shift(%s)" % ",".join(atoms_of(g)) if g[0] == "call" else g[0] + "(" + ",".join(atoms_of(g)) + ")")
             rep.ob("C08.slotwise", short(path), ok, "shift_suit of %s gives slots %s; slot i must be the shifted card of input slot i" % (short(path), desc), pdb.where(key))
